@@ -86,6 +86,12 @@ func c01RunSpec(spec *TASpec, scratch string) *C01RunResult {
 		var args map[string]interface{}
 		if json.Unmarshal(job.Args, &args) == nil {
 			outs[stage.OutParams.List[0].Id] = args[stage.InParams.List[0].Id]
+			if strings.HasPrefix(job.StageName, "ECHOALL") {
+				// every output is the input at the same position (c01_family_narrow.go)
+				for i := 1; i < len(stage.OutParams.List) && i < len(stage.InParams.List); i++ {
+					outs[stage.OutParams.List[i].Id] = args[stage.InParams.List[i].Id]
+				}
+			}
 		}
 	}
 	run, err := NewTARun(spec.Src, scratch, spec.Seed, opts)
@@ -101,7 +107,7 @@ func c01RunSpec(spec *TASpec, scratch string) *C01RunResult {
 	} else {
 		res.Program = prog
 	}
-	if res.Program != "" && c01Shape(spec.Src) == "plain" && !strings.Contains(spec.Src, "split ") {
+	if res.Program != "" && !strings.Contains(spec.Src, "disabled") {
 		if cg, err := c01CallGraph(spec.Src, spec.MroPaths); err == nil {
 			res.CallGraph = cg
 		} else {
